@@ -257,6 +257,16 @@ def handleC17 (fields : List String) : Verdict :=
             else if sq ≥ 2 && holdsConj b2 fuel f == some true then some "an assignment giving cell 0 two numbers satisfies the formula"
             else none
           | none => none
+        -- oracle (e): among ALL valid completed grids (r ≤ 2: 288 of them), exactly those that keep every
+        -- given satisfy the formula
+        let oe := if r > 2 then none else
+          let keeps := fun (g : List Nat) => (List.range (sq * sq)).all (fun c => match givens[c]? with
+            | some (some d) => g.getD c 0 == d
+            | _ => true)
+          match (solveSudoku r []).find? (fun g => (holdsConj (boardOf g) fuel f == some true) != keeps g) with
+          | some g => some (if keeps g then s!"the valid grid {g} keeps the givens but falsifies the emitted formula"
+              else s!"the valid grid {g} does not keep every given, yet satisfies the emitted formula")
+          | none => none
         -- oracle (d): what the real solver lists (exact model-set equality, r ≤ 2)
         let od := if solver == "-" || r > 2 then none else
           let rows := (solver.splitOn ";").filter (· ≠ "")
@@ -264,7 +274,7 @@ def handleC17 (fields : List String) : Verdict :=
           let rowsN := rows.map (fun r => String.intercalate "." (sortStrings ((r.splitOn ".").filter (· ≠ ""))))
           if rowsN.all (want.contains ·) && want.all (rowsN.contains ·) && rowsN.length == want.length then none
           else some s!"rsbdd lists {rows.length} models, the puzzle has {want.length} solutions"
-        { modelOk, modelOut := "", oracle := orElse oa (orElse ob (orElse oc od)), nontrivial := r ≥ 2 }
+        { modelOk, modelOut := "", oracle := orElse oa (orElse ob (orElse oc (orElse oe od))), nontrivial := r ≥ 2 }
     | _, _ => Verdict.badLine "unreadable sudoku line"
   | _ => Verdict.badLine "unknown C17 line"
 
